@@ -33,7 +33,7 @@ RULE = (
     "Function groups (one compiled worker process each): interpolation+Mellin path (evaluate_grid / evaluate_x / "
     "log_evaluate_x on dispatcher areas, Talbot/line/edge paths, the Path jitclass), couplings (expanded solutions incl. "
     "coupled QCDxQED), scale variations (expanded QCD/QED ns/singlet/valence, exponentiated gamma variations), harmonics "
-    "(every cache key x is_singlet, polygamma orders 0-4, g- and log-functions), QCD kernels (non-singlet and singlet "
+    "(every cache key x is_singlet, polygamma orders 0-4, g- and log-functions; the leaf functions S1-S5, cern_polygamma and recursive_harmonic_sum also with N typed as Python int and float, i.e. their int64 / float64 specialisations), QCD kernels (non-singlet and singlet "
     "dispatchers: 8 methods x orders 1-4, plus every evolution integral and the individual solution kernels), QED kernels "
     "(non-singlet / singlet / valence dispatchers on the (1-4)x(1-2) grid, running and fixed alpha_em), every function of "
     "the unpolarised space-like anomalous-dimension modules as1/as2 and matching modules as1/as2 (found by introspection, "
@@ -44,7 +44,7 @@ RULE = (
     "Hypothesis draws the continuous rest, 1-2 repetitions per combination (quick) / 5-10 (thorough).  Inputs: N on the solver's Talbot contours (eko.mellin.Path) and off-contour (box Re N in [-6,40], "
     "|Im N| <= 40, at least 0.75 away from the poles at the integers <= 1; the contours keep >= 0.9), couplings "
     "log-uniform in [0.002,0.05], random complex gamma towers |gamma_k| <= 10^(k+1), jittered log grids, N-space basis functions at (x in the grid range, N on / near the contour built for that x).  Oracle: same "
-    "structure and shape; integers / booleans identical; floats within 1e-12 of the largest modulus of the same array; an "
+    "structure and shape; integers / booleans identical; floats within 1e-12 (harmonics group: 1e-11) of the largest modulus of the same array; an "
     "exception on one side only, a numba compile/typing error, or a crash of the compiled worker is a violation.  "
     "Non-trivial = both sides returned a floating-point result (not an agreed refusal); distinct by (function, arguments)."
 )
@@ -82,11 +82,13 @@ SCALE_FLOOR = {"interpolation": 1.0, "harmonics": 1.0, "ad_as12": 1.0, "ome_as12
 # return the factor and its peak (QuadKerBase.integrand); the kernel value is compared to 1e-10 of max(|value|, peak)
 # (the kernel element's own magnitude, O(1)..O(100), is not visible from outside), the factor to 1e-12 of the peak.
 # The end-to-end solve passes these values through adaptive quadrature.
-TOL_GROUP = {"quad_ker_ad": 1e-10, "quad_ker_ome": 1e-10, "solve": 1e-10}
+# harmonics: cern_polygamma of order K carries complex powers (N+k)^-(K+1) over its recurrence; compiled and interpreted complex
+# powers round differently (observed 1.1e-12 of the O(1) scale for K = 4 at N = -0.08+1.80j on the unchanged tree), so 1e-11
+TOL_GROUP = {"quad_ker_ad": 1e-10, "quad_ker_ome": 1e-10, "solve": 1e-10, "harmonics": 1e-11}
 QUICK_GROUPS = ("qcd_kernels", "ome_as12", "ad_as12", "qed_kernels", "harmonics", "scale_variations", "couplings", "interpolation")
 THOROUGH_GROUPS = ("quad_ker_ad", "quad_ker_ome", "solve") + QUICK_GROUPS
 # repetitions of the full discrete product of each group (sizes: qcd_kernels 468, qed_kernels 230, scale_variations 256,
-# couplings 160, harmonics 210, ad_as12 128, ome_as12 104, interpolation 90, quad_ker_ad 166, quad_ker_ome 156, solve 2)
+# couplings 160, harmonics 280, ad_as12 128, ome_as12 104, interpolation 90, quad_ker_ad 166, quad_ker_ome 156, solve 2)
 REPS = {
     "quick": {"*": 1, "ad_as12": 2, "ome_as12": 2},
     "thorough": {"*": 5, "ad_as12": 10, "ome_as12": 10, "quad_ker_ad": 2, "quad_ker_ome": 2, "solve": 1},
@@ -794,6 +796,17 @@ def combos_harmonics(tier):
             out.append({"fn": "polygamma.cern_polygamma", "K": K, "singlet": bool(rep), "rep": rep})
         for weight in range(1, 6):
             out.append({"fn": "polygamma.recursive_harmonic_sum", "weight": weight, "singlet": bool(rep), "rep": rep})
+        # the same leaf functions with N typed as a Python int / float (integer moments are how the repository's own tests and
+        # the documentation's tables call the harmonic sums; numba compiles a separate int64 / float64 specialisation whose
+        # integer arithmetic - powers with negative exponents, divisions - need not follow Python's promotion rules)
+        for ntype in ("int", "float"):
+            for K in range(5):
+                out.append({"fn": "polygamma.cern_polygamma", "K": K, "singlet": bool(rep), "rep": rep, "ntype": ntype})
+            for weight in range(1, 6):
+                out.append({"fn": "polygamma.recursive_harmonic_sum", "weight": weight, "singlet": bool(rep), "rep": rep, "ntype": ntype})
+        for ntype in ("int", "float", "complex"):
+            for weight in range(1, 6):
+                out.append({"fn": "direct.S", "weight": weight, "singlet": bool(rep), "rep": rep, "ntype": ntype})
         for singlet in (False, True):
             out.append({"fn": "polygamma.symmetry_factor", "singlet": singlet, "rep": rep})
             for k in range(4):
@@ -809,6 +822,12 @@ def strat_harmonics(pin):
     def one(draw):
         fn = pin["fn"]
         args = {"n": draw(st_n()), "singlet": pin["singlet"]}
+        if pin.get("ntype") in ("int", "float"):
+            k = draw(st.integers(1, 40))
+            args["n"] = [float(k) if pin["ntype"] == "int" else k + draw(unit()), 0.0]
+            args["ntype"] = pin["ntype"]
+        if fn == "direct.S":
+            args["weight"] = pin["weight"]
         if fn == "cache.get:sequence":
             args["keys"] = draw(st.lists(st.sampled_from(keys), min_size=2, max_size=6))
         elif "nS" in pin:
@@ -827,7 +846,13 @@ def call_harmonics(fn, a):
     from ekore.harmonics import cache, g_functions, log_functions, polygamma
 
     n = c(a["n"])
+    if a.get("ntype") == "int":
+        n = int(a["n"][0])
+    elif a.get("ntype") == "float":
+        n = float(a["n"][0])
     sing = bool(a["singlet"])
+    if fn == "direct.S":
+        return (h.S1, h.S2, h.S3, h.S4, h.S5)[int(a["weight"]) - 1](n)
     if fn == "cache.get:sequence":
         cc = cache.reset()
         return [cache.get(getattr(cache, k), cc, n, sing) for k in a["keys"]] + [cc.copy()]
